@@ -218,6 +218,20 @@ CHECKS = {
              "database writer are excluded by the statement; MPI paths not modelled.",
         technique="TLA+ database-history spec and run-with-failures spec (extends the operator spec) + TLC fault enumeration; replay on a real Database and real Operator runs; TLC trace validation",
     ),
+    "C04": dict(
+        text="Layout.tla is the layout algebra of the database: Flatten (the writer: sort order of ArmiObject/Component __lt__ with python's stable sort, complete "
+             "indices, per-type indexInData, packed locations incl. multi-index and coordinates, de-duplicated grids), FileObs (what h5py shows), Unflatten / LoadFile "
+             "(the loader) and clause-wise equality over 16 named clauses; TLC checks RoundTrip, FileIsSorted, ResaveSame, IndexBijection, GridDedup, AncestorsAreParents ... "
+             "over all trees of <= 4 nodes. DbState.tla adds the mutation / write / refused write / load / resave actions (LoadedIsWritten, LoadTwiceEqual, ResaveFixpoint, "
+             "SnapshotsFrozen). Every emitted tree is built from real objects, written with Database.writeToDB to HDF5, compared with FileObs, loaded and compared with "
+             "LoadFile; real histories on reactors generated from blueprints (hex third/full, hex pin lattices, Cartesian full/quarter, theta-RZ, spent fuel pool) are "
+             "recorded (mutate, write, load twice, resave, load) and validated clause by clause by TLC.",
+        design="3/C04 and 9",
+        note="Trusted: TLC, the reactor generator (harness/gen_reactor.py), SHA-1 digests of canonicalised parameter/query values (reals rounded to 12 significant digits). "
+             "Interpretations I1-I5 in the module header (canonical sibling order, materials by class, public geomType). Known findings: attachment of free-coordinate "
+             "locators is not recorded in the file; stale block names after a stationary-block exchange.",
+        technique="TLA+ database layout algebra + state spec checked by TLC over all small trees; real write/load of every emitted tree; TLC clause-wise validation of recorded write/load histories",
+    ),
 }
 
 NOT_YET = "no specification-bound check has been built for this property yet in this session (planned, see DESIGN.md section 3)"
